@@ -60,7 +60,8 @@ class KernelSpace(Subspace):
     shard = 200
 
     def __init__(self, name, alphabet, lo, hi, dtype="f8", mask_kind="none", nullcode=-1,
-                 extra_groups=0, lifo=False, splits="all", seed=0, kernels=None, steps=(None,)):
+                 extra_groups=0, lifo=False, splits="all", seed=0, kernels=None, steps=(None,),
+                 real_pool=False):
         self.name = name
         self.ws = W.WordSpace(alphabet, lo, hi)
         self.dtype = dtype
@@ -72,6 +73,7 @@ class KernelSpace(Subspace):
         self.seed = seed
         self.kernels = kernels
         self.steps = steps
+        self.real_pool = real_pool
         self.warm_key = f"{dtype}-{mask_kind in ('none',)}"
 
     def size(self):
@@ -81,7 +83,7 @@ class KernelSpace(Subspace):
         return dict(w=[list(s) for s in self.ws.at(i)], dtype=self.dtype, mask_kind=self.mask_kind,
                     nullcode=self.nullcode, extra_groups=self.extra_groups, lifo=self.lifo,
                     splits=self.splits, seed=self.seed, kernels=self.kernels,
-                    steps=list(self.steps))
+                    steps=list(self.steps), real_pool=self.real_pool)
 
     # -------------------------------------------------------------------------------------
     def run(self, case):
@@ -133,7 +135,8 @@ class KernelSpace(Subspace):
             splits = [("T", 1), ("T", 2)]
 
         seams = env.seams()
-        seams.set(executor=sched.NAMESPACE)
+        # free-running pass: the library's own ThreadPoolExecutor (real OS threads, any completion order)
+        seams.set(executor=None if case.get("real_pool") else sched.NAMESPACE)
         policies = (0, -1) if case["lifo"] else (0,)
         kernels = _kernels_for(dtype)
         if case.get("kernels"):
@@ -250,6 +253,9 @@ def subspaces(tier, seed):
         sp.append(K_(f"dtype-{dt}-n1to{Ld+1}", KN, 1, Ld + 1, dt, "none", seed=seed))
         sp.append(K_(f"dtype-{dt}-boolmask-n1to{min(Ld, 4)}", KNM, 1, min(Ld, 4), dt, "bool", seed=seed))
     if not q:
+        sp.append(K_("nomask-f8-realpool-n1to4", AF, 1, 4, "f8", "none", real_pool=True, seed=seed))
+        sp.append(K_("boolmask-f8-realpool-A2-n3to4", W.A(2), 3, 4, "f8", "bool", real_pool=True, seed=seed))
+        sp.append(K_("dtype-i4-realpool-n1to5", KN, 1, 5, "i4", "none", real_pool=True, seed=seed))
         for dt in ("i8big", "i2", "i1", "u8", "M8[us]", "M8[s]", "m8[us]"):
             alpha = AF if C.can_null(dt) else KN
             sp.append(K_(f"dtype-{dt}-n1to4", alpha, 1, 4, dt, "none", seed=seed))
